@@ -50,6 +50,7 @@ Inductive case :=
             (load load2 : option obx3)                 (* the three loaders, when the shape is loaded at all *)
 | CaseBad (T : fields) (load : ob3)                    (* three malformed texts *)
 | CaseMFmt (T : fields) (d : doc) (bytes readers : ob3)    (* mapping.Unmarshal{Json,Yaml,Toml}{Bytes,Reader} *)
+           (canon rcanon : ob3)                            (* the same six with WithCanonicalKeyFunc(strings.ToLower) *)
 | CaseNull (T : fields) (d : doc) (lj ly : ob).            (* a document WITH nulls: conf.LoadFromJsonBytes / LoadFromYamlBytes
                                                              (TOML has no null: outside the property's quantifier; the model's
                                                              account of it, Props.yaml_null_refuted, is tied here) *)
@@ -154,7 +155,7 @@ Definition in_scope (c : case) : bool :=
   | CaseStd T d _ _ => match d with DMap _ => true | _ => false end
   | CaseShape T d d2 _ _ _ _ _ => rep_top d && opt_all d2 rep_top
   | CaseBad _ _ => true
-  | CaseMFmt T d _ _ => rep_top d
+  | CaseMFmt T d _ _ _ _ => rep_top d
   | CaseNull T d _ _ => match d with DMap _ => repn d | _ => false end
   end.
 
@@ -210,10 +211,12 @@ Definition agrees (c : case) : bool :=
     | CaseBad T load =>
       (* a malformed text: the front end (or jsonx) fails, [conf_load T None] *)
       ob3_eqb load (let r := ob_of (conf_load T None) in mkOb3 r r r)
-    | CaseMFmt T d bytes readers =>
+    | CaseMFmt T d bytes readers canon rcanon =>
       let um := fun f => ob_of (unmarshal fixed jcfg T (Some (shape rf_go f d))) in
       let m := mkOb3 (um FJson) (um FYaml) (um FToml) in
-      rf_ok_doc rf_go d && ob3_eqb m bytes && ob3_eqb m readers
+      let umc := fun f => ob_of (unmarshal fixed ccfg (lower_fields T) (Some (shape rf_go f d))) in
+      let mc := mkOb3 (umc FJson) (umc FYaml) (umc FToml) in
+      rf_ok_doc rf_go d && ob3_eqb m bytes && ob3_eqb m readers && ob3_eqb mc canon && ob3_eqb mc rcanon
     | CaseNull T d lj ly =>
       ob_eqb (ob_of (load_doc rf_go T FJson d)) lj && ob_eqb (ob_of (load_doc rf_go T FYaml d)) ly
     end
@@ -310,10 +313,11 @@ Definition prop_gen (same3 : ob3 -> bool) (c : case) : bool :=
     | CaseBad T load =>
       (* the verdict for a text that is not a document at all is an error, never a panic or a success *)
       ob3_eqb load (mkOb3 OErr OErr OErr)
-    | CaseMFmt T d bytes readers =>
+    | CaseMFmt T d bytes readers canon rcanon =>
       (* mapping's own YAML / TOML / JSON entry points: same verdict, equal values, and the Reader
-         variants behave like the Bytes ones *)
+         variants behave like the Bytes ones; the same when the caller passes an option *)
       ob3_nopanic bytes && same3 bytes && ob3_nopanic readers && ob3_eqb bytes readers
+      && ob3_nopanic canon && same3 canon && ob3_eqb canon rcanon
     | CaseNull T d lj ly =>
       (* nothing is demanded between the formats (the document has no TOML rendering); no panic *)
       negb (ob_panics lj || ob_panics ly)
@@ -336,7 +340,7 @@ Definition model_obs (c : case) :=
      (match lc_model (xinfo T) d with Some j => j | None => JNull end,
       match d2 with Some d' => match lc_model (xinfo T) d' with Some j => j | None => JNull end | None => JNull end))
   | CaseBad T _ => (let r := ob_of (conf_load T None) in mkOb3 r r r, None, None, (JNull, JNull))
-  | CaseMFmt T d _ _ =>
+  | CaseMFmt T d _ _ _ _ =>
     (let um := fun f => ob_of (unmarshal fixed jcfg T (Some (shape rf_go f d))) in mkOb3 (um FJson) (um FYaml) (um FToml),
      None, None, (JNull, JNull))
   | CaseNull T d _ _ =>
